@@ -687,6 +687,12 @@ func assignsBody(text string) string {
 	if t == "none" || t == "" {
 		return ""
 	}
+	if k := strings.Index(t, " when "); k > 0 {
+		// conditional frame: the locations are written only when the condition holds in the pre-state
+		cond := rewriteExpr(strings.TrimSpace(t[k+6:]))
+		inner := assignsBody(t[:k])
+		return "\tAssignsWhen(" + cond + ")\n" + inner
+	}
 	for _, it := range splitTop(t, ",") {
 		it = strings.TrimSpace(it)
 		switch {
